@@ -1,4 +1,5 @@
 import Pms.Model.Pbc
+import Pms.Gen.Neigh
 /-!
 Model of `PyMatterSim/neighbors/calculate_neighbors.py` (Nnearests, cutoffneighbors,
 cutoffneighbors_particletype) and `PyMatterSim/neighbors/read_neighbors.py` (read_neighbors).
@@ -47,25 +48,40 @@ def sortBy (key : Nat → α) (l : List Nat) : List Nat :=
 /-- driver instance of `np.argpartition(key, kth)`: the fully sorted permutation -/
 def apartSort (key : Nat → α) (n _kth : Nat) : List Nat := sortBy key (List.range n)
 
-/-- `Nnearests` L61-70 for one centre, 0-based result (before the `+ 1`):
-`np.argpartition(RIJ_norm, N)[:N+1]` → `nearests[RIJ_norm[nearests].argsort()]` → `[1:]`.
+/-- `Nnearests` L61-70 for one centre with the source's constants as parameters, 0-based result (before
+the id offset): `np.argpartition(RIJ_norm, kth)[:tk]` → `nearests[RIJ_norm[nearests].argsort()]` → `[dr:]`.
 `none` = `ValueError: kth out of bounds` (numpy requires `kth < nparticle`). -/
-def Impl.nnearest0 (apart : (Nat → α) → Nat → Nat → List Nat) (asort : (Nat → α) → List Nat → List Nat)
-    (key : Nat → α) (n N : Nat) : Option (List Nat) :=
-  if N < n then
-    let nearests := (apart key n N).take (N + 1)
+def Impl.nnearestGen (kth tk dr : Nat) (apart : (Nat → α) → Nat → Nat → List Nat)
+    (asort : (Nat → α) → List Nat → List Nat) (key : Nat → α) (n : Nat) : Option (List Nat) :=
+  if kth < n then
+    let nearests := (apart key n kth).take tk
     let nearests := asort key nearests
-    some (nearests.drop 1)
+    some (nearests.drop dr)
   else none
 
+/-- … with the constants REGENERATED from the source (`Pms/Gen/Neigh.lean`) -/
+def Impl.nnearest0 (apart : (Nat → α) → Nat → Nat → List Nat) (asort : (Nat → α) → List Nat → List Nat)
+    (key : Nat → α) (n N : Nat) : Option (List Nat) :=
+  Impl.nnearestGen (Gen.Neigh.nnKth N) (Gen.Neigh.nnTake N) Gen.Neigh.nnDrop apart asort key n
+
 /-- `cutoffneighbors` L121-128 / `cutoffneighbors_particletype` L195-202 for one centre, 0-based:
-`neighbor[mask]` (ascending indices) → CN = len − 1 → argsort by distance → `[1:]` -/
+`neighbor[mask]` (ascending indices) → CN = len − cnMinus → argsort by distance → `[dr:]` -/
+def Impl.cutoffGen (cnMinus dr : Nat) (asort : (Nat → α) → List Nat → List Nat) (key : Nat → α)
+    (within : Nat → Bool) (n : Nat) : Nat × List Nat :=
+  let nearests := (List.range n).filter within
+  let cn := nearests.length - cnMinus
+  let nearests := asort key nearests
+  (cn, nearests.drop dr)
+
+/-- the global-cutoff routine with its regenerated constants -/
 def Impl.cutoff0 (asort : (Nat → α) → List Nat → List Nat) (key : Nat → α) (within : Nat → Bool)
     (n : Nat) : Nat × List Nat :=
-  let nearests := (List.range n).filter within
-  let cn := nearests.length - 1
-  let nearests := asort key nearests
-  (cn, nearests.drop 1)
+  Impl.cutoffGen Gen.Neigh.cutCnMinus Gen.Neigh.cutDrop asort key within n
+
+/-- the type-pair routine with its regenerated constants -/
+def Impl.cutoffT0 (asort : (Nat → α) → List Nat → List Nat) (key : Nat → α) (within : Nat → Bool)
+    (n : Nat) : Nat × List Nat :=
+  Impl.cutoffGen Gen.Neigh.ctypeCnMinus Gen.Neigh.ctypeDrop asort key within n
 
 /-- global cutoff mask `RIJ_norm <= r_cut`, decided on squares (r_cut ≥ 0) -/
 def withinGlobal (key : Nat → α) (rc2 : α) : Nat → Bool := fun j => decide (key j ≤ rc2)
@@ -116,8 +132,11 @@ def renderRows : Nat → List (List String) → Lines
 /-- a frame with arbitrary value tokens under header `hdr` -/
 def renderTok (hdr : Line) (fr : List (List String)) : Lines := hdr :: renderRows 0 fr
 
-/-- value tokens of a 0-based neighbour list: ids are written 1-based -/
-def idToks (nb : List Nat) : List String := nb.map fun j => Nat.repr (j + 1)
+/-- value tokens of a 0-based neighbour list written with id offset `off` -/
+def idToksOff (off : Nat) (nb : List Nat) : List String := nb.map fun j => Nat.repr (j + off)
+
+/-- the file format: ids are written 1-based -/
+def idToks (nb : List Nat) : List String := idToksOff 1 nb
 
 /-- a neighbour-list frame: `fr[i]` = 0-based neighbours of particle `i`, nearest first -/
 def render (fr : List (List Nat)) : Lines := renderTok header (fr.map idToks)
@@ -136,28 +155,29 @@ def Impl.cutoffLists (asort : (Nat → α) → List Nat → List Nat) (key : Nat
 
 def Impl.cutoffTypeLists (asort : (Nat → α) → List Nat → List Nat) (key : Nat → Nat → α)
     (rc2 : Nat → Nat → α) (ty : Nat → Nat) (n : Nat) : List (List Nat) :=
-  (List.range n).map fun i => (Impl.cutoff0 asort (key i) (withinType (key i) rc2 ty i) n).2
+  (List.range n).map fun i => (Impl.cutoffT0 asort (key i) (withinType (key i) rc2 ty i) n).2
 
 /-- `Nnearests` for one snapshot: lines of the file, `none` when numpy raises.  `key i j` = squared distance -/
 def Impl.nnearestFrame (apart : (Nat → α) → Nat → Nat → List Nat) (asort : (Nat → α) → List Nat → List Nat)
     (key : Nat → Nat → α) (n N : Nat) : Option Lines :=
-  if N < n then
+  if Gen.Neigh.nnKth N < n then
     some (header :: (List.range n).map fun i =>
-      Nat.repr (i + 1) :: Nat.repr N :: idToks ((Impl.nnearest0 apart asort (key i) n N).getD []))
+      Nat.repr (i + 1) :: Nat.repr (Gen.Neigh.nnCn N) ::
+        idToksOff Gen.Neigh.nnIdOff ((Impl.nnearest0 apart asort (key i) n N).getD []))
   else none
 
 /-- `cutoffneighbors` for one snapshot.  (CN column = len(mask) − 1 = number of ids written.) -/
 def Impl.cutoffFrame (asort : (Nat → α) → List Nat → List Nat) (key : Nat → Nat → α) (rc2 : α) (n : Nat) : Lines :=
   header :: (List.range n).map fun i =>
     let r := Impl.cutoff0 asort (key i) (withinGlobal (key i) rc2) n
-    Nat.repr (i + 1) :: Nat.repr r.1 :: idToks r.2
+    Nat.repr (i + 1) :: Nat.repr r.1 :: idToksOff Gen.Neigh.cutIdOff r.2
 
 /-- `cutoffneighbors_particletype` for one snapshot -/
 def Impl.cutoffTypeFrame (asort : (Nat → α) → List Nat → List Nat) (key : Nat → Nat → α)
     (rc2 : Nat → Nat → α) (ty : Nat → Nat) (n : Nat) : Lines :=
   header :: (List.range n).map fun i =>
-    let r := Impl.cutoff0 asort (key i) (withinType (key i) rc2 ty i) n
-    Nat.repr (i + 1) :: Nat.repr r.1 :: idToks r.2
+    let r := Impl.cutoffT0 asort (key i) (withinType (key i) rc2 ty i) n
+    Nat.repr (i + 1) :: Nat.repr r.1 :: idToksOff Gen.Neigh.ctypeIdOff r.2
 
 end Writers
 
